@@ -1749,6 +1749,7 @@ def observe_model(name_hint=None):
         o.add("class", lambda: type(sm).__name__)
         o.add("name", lambda: sm.name)
         o.add("alphabet", lambda: [str(m) for m in sm.get_alphabet()])
+        o.add("genetic code", lambda: getattr(getattr(sm, "gc", None), "ID", None))
         o.add("moltype", lambda: sm.get_alphabet().moltype.label)
         o.add("word length", lambda: sm.get_word_length())
         o.add("parameter names", lambda: sorted(sm.get_param_list()))
@@ -1952,6 +1953,9 @@ def static_items(family, b):
             yield (name, "substitution model", f"{model_family(name)} model", lambda name=name: get_model(name), observe_model(name), True)
         yield ("HKY85:gamma", "substitution model", "nucleotide model with rate heterogeneity", lambda: get_model("HKY85", ordered_param="rate", distribution="gamma"), observe_model("HKY85"), True)
         yield ("GTR:recode_gaps", "substitution model", "nucleotide model with constructor options", lambda: get_model("GTR", recode_gaps=True, optimise_motif_probs=True), observe_model("GTR"), True)
+        yield ("MG94HKY:gc=2", "substitution model", "codon model of a non-standard genetic code", lambda: get_model("MG94HKY", gc=2), observe_model("MG94HKY"), True)
+        if b["models"] == "all":
+            yield ("GNC:gc=4", "substitution model", "codon model of a non-standard genetic code", lambda: get_model("GNC", gc=4), observe_model("GNC"), True)
         yield ("MG94HKY:tuple", "substitution model", "codon model with constructor options", lambda: get_model("MG94HKY", optimise_motif_probs=True), observe_model("MG94HKY"), True)
     elif family == "not_completed":
         app = get_app("omit_degenerates", moltype="dna")
